@@ -5,7 +5,7 @@ WT="$1"; N="$2"; M="$WT/mutants/$N"
 PY=/root/.pyenv/versions/3.11.7/bin/python3
 cd "$WT" || exit 2
 git checkout -q -- . || exit 2
-demo=$(ls "$M"/demo.* 2>/dev/null | head -1)
+demo=""; for f in "$M"/demo.sh "$M"/demo.py "$M"/demo.*; do [ -f "$f" ] && { demo="$f"; break; }; done
 run_demo() {
   case "$demo" in
     *.py) PYTHONPATH="$WT/src" timeout 300 $PY "$demo" >/tmp/demo.$$.out 2>&1 ;;
